@@ -471,7 +471,7 @@ func init() {
 			"non-trivial = every run (unit stream + delivery); distinct = hash of (API history, mode, segment/fragment counts, UpdateSidx history, delivered read sizes).",
 		Assumptions: []string{"delimiter modes are pure (no mixing of styp with sidx/mfra), because the statement does not define precedence", "mfra mode carries no foreign top-level boxes", "reference_ID and earliest_presentation_time values are not constrained by the statement and not checked"},
 		Real:        realLib, Stub: []string{"io.Reader/io.ReadSeeker (SimDisk handle incl. seek errors)", "unit stream assembly with raw delimiter boxes", "virtual device time"}, RealNoFault: realNoFault,
-		Runs:       map[string]int{"quick": 40000, "thorough": 3000000},
+		Runs:       map[string]int{"quick": 300000, "thorough": 25000000},
 		Setup:      work.SetupPackager,
 		Run:        c12Run,
 		WantFaults: []string{"seek-eio", "read-short", "read-zero"},
